@@ -1066,7 +1066,7 @@ def _self_fields_read(facts, path, depth=3, _seen=None):
     return out
 
 
-SIZED_KINDS = ("Vector", "String", "Continuation", "Lambda", "LexicalEnv", "Symbol")
+SIZED_KINDS = ("Vector", "String", "Continuation", "Lambda", "LexicalEnv", "Symbol", "Number", "Macro")
 
 
 def r12p(ctx, rep, rule="R12p"):
@@ -1170,6 +1170,107 @@ def r12p(ctx, rep, rule="R12p"):
                     f.short, kind, "the arm returns a constant" if vals else "it has no arm of its own"), [sw["term"]["loc"]])
     rep.floor(rule, "sized kinds weighed", n, len(SIZED_KINDS))
 
+
+
+def r12v(ctx, rep, rule="R12v"):
+    """a weighed kind is charged wherever the heap hands it on"""
+    facts = ctx["facts"]
+    rep.rule(rule, "a weight that is never added is no weight: Heap::maybe_put leaves numbers, booleans and the like where they "
+             "are used — in an environment slot, a vector element, on the stack — instead of giving them a cell, and a bignum "
+             "kept that way holds its digits all the same; (fact 30000) in an accumulator loop held 270 MB of dead "
+             "products in one-cell environments. For every VCell kind that the weigher (R12p(iii)) gives a weight taken from the "
+             "value, every way through Heap::put and Heap::maybe_put that keeps a value of that kind — stores it in a fresh cell "
+             "(Heap::alloc) or returns the value itself — passes a statement that adds to the Heap field run_gc's gate reads.")
+    gc = need(rep, rule, facts, RUN_GC)
+    if gc is None:
+        return
+    gate_fields = set()
+    for bb, t in gc.calls():
+        if callee(t) in _gate_fns(facts):
+            gate_fields |= _self_fields_read(facts, callee(t))
+    # the weigher: the module-level helper of heap.rs that switches on a VCell and is called from put
+    put = need(rep, rule, facts, HEAP + "put")
+    if put is None:
+        return
+    weigher = None
+    for bb, t in put.calls():
+        c = callee(t) or ""
+        if c in facts.fns and c.startswith("marwood::vm::heap::") and not c.startswith(HEAP) and \
+                disc_switches(facts, facts.fns[c], "marwood::vm::vcell::VCell"):
+            weigher = facts.fns[c]
+    if weigher is None:
+        rep.anchor_lost(rule, "the function Heap::put derives a stored value's weight with")
+        return
+    sw = disc_switches(facts, weigher, "marwood::vm::vcell::VCell")[0]
+    kinds = []
+    for kind in sorted(sw["arms"]):
+        region = arm_region(weigher, sw, kind)
+        vals = []
+        for bb, j, st in weigher.stmts():
+            if bb in region and st["lhs"]["l"] == 0 and not st["lhs"]["p"]:
+                vals.append(weigher.origin(st["rv"]["a"]) if st["rv"]["k"] == "use" else ("rv", st))
+        for bb, t in weigher.calls():
+            if bb in region and t["dest"]["l"] == 0 and not t["dest"]["p"]:
+                vals.append(("call", t))
+        if vals and not all(v[0] == "const" for v in vals):
+            kinds.append(kind)
+    n = 0
+    for nm in ("put", "maybe_put"):
+        f = need(rep, rule, facts, HEAP + nm)
+        if f is None:
+            continue
+        sws = disc_switches(facts, f, "marwood::vm::vcell::VCell")
+        if not sws:
+            rep.anchor_lost(rule, "the match on the value's kind in Heap::" + nm)
+            continue
+        fsw = sws[0]
+        vl = fsw["place"]["l"]
+        held = {vl}
+        for bb, j, st in f.stmts():      # the local the value lives in, behind the reference the match looks through
+            if st["lhs"]["l"] == vl and st["rv"]["k"] == "ref":
+                held.add(st["rv"]["place"]["l"])
+        charging = set()
+        for bb, j, st in f.stmts():
+            lp = st["lhs"]
+            if lp["l"] == 1 and len(lp["p"]) >= 2 and lp["p"][0] == "*" and isinstance(lp["p"][1], dict) and lp["p"][1].get("n") in gate_fields:
+                charging.add(bb)
+        keeping = set()
+        for bb, t in f.calls():
+            if callee(t) == HEAP + "alloc":
+                keeping.add(bb)
+        for bb, j, st in f.stmts():
+            if st["lhs"]["l"] == 0 and not st["lhs"]["p"] and st["rv"]["k"] == "use":
+                pa = op_place(st["rv"]["a"])
+                if pa is not None and pa["l"] in held and not [e for e in pa["p"] if e != "*"]:
+                    keeping.add(bb)
+        rets = set(f.return_blocks())
+
+        def reach_avoiding(start, avoid):
+            seen, st_ = set(), [start]
+            while st_:
+                x = st_.pop()
+                if x in seen or x in avoid:
+                    continue
+                seen.add(x)
+                st_.extend(f.succ[x])
+            return seen
+        for kind in kinds:
+            n += 1
+            tgt = fsw["arms"].get(kind, fsw["otherwise"])
+            free_fwd = reach_avoiding(tgt, charging)
+            bad = []
+            for kb in sorted(keeping & f.reach_from(tgt) | ({tgt} & keeping)):
+                if kb in charging:
+                    continue
+                if kb in free_fwd and (reach_avoiding(kb, charging) & rets):
+                    bad.append(f.blocks[kb]["term"]["loc"])
+            key = "%s|%s|%s" % (rule, nm, kind)
+            (rep.ok if not bad else rep.fail)(
+                rule, key, "Heap::%s charges a %s on every way that keeps it" % (nm, kind) if not bad else
+                "Heap::%s keeps a %s (returns it as it is, or stores it) on a path that adds nothing to Heap.{%s}: the weight %s gives "
+                "the kind never reaches run_gc's gate, and dead values of that kind held inline pile up unseen" % (
+                    nm, kind, ", ".join(sorted(gate_fields)), weigher.short), bad)
+    rep.floor(rule, "weighed kinds x (put, maybe_put)", n, 14)
 
 
 def _gate_every_instruction(facts):
